@@ -111,6 +111,12 @@ def validate(pid, traces, tag, verdicts, shards=8):
                 evs = vlib.read_ndjson(p)
             e = evs[int(st["i"]) - 1]
             for k in parse_set(st["bad"]):
+                if k == 0:
+                    small = {kk: e[kk] for kk in e if kk != "q"}
+                    small["q"] = []
+                    verdicts.add("cal/projection/" + e.get("kind", ""), "calendar %s: is_bus_day / is_settlement of the %s is not the union of its individually built parts" % (e.get("key"), e.get("kind")), {"event": small, "engine": "cal"})
+                    nviol += 1
+                    continue
                 q = e["q"][k - 1]
                 key = "cal/" + QKEY[q["f"]](q) + ("/" + q["o"] if q.get("o") in ("panic",) else "")
                 case = {"event": {kk: e[kk] for kk in e if kk != "q"}, "query": q, "engine": "cal"}
@@ -184,14 +190,14 @@ def run(pid, tier):
         traces = []
         for i, c in enumerate(cases):
             out = os.path.join(d, "gen_%d.ndjson" % i)
-            run_harness(["cal", "replay", c, out])
-            traces.append(out)
+            if vlib.record(V, ["cal", "replay", c, out]):
+                traces.append(out)
         rnd = os.path.join(d, "rnd.ndjson")
-        run_harness(["cal", "record", "--seed", seed, "--n", 600 if quick else 6000, "--out", rnd])
-        traces.append(rnd)
+        if vlib.record(V, ["cal", "record", "--seed", seed, "--n", 600 if quick else 6000, "--out", rnd]):
+            traces.append(rnd)
         st = validate(pid, traces, tag, V, shards=12)
         n, nd, samples = count_owned(traces, pid)
-        bind = binding_demo(pid, traces[0], d, tag)
+        bind = binding_demo(pid, traces[0], d, tag) if traces else {}
         cov = dict(states=mc["distinct"], transitions=mc["generated"], depth=mc["depth"], action_coverage=mc["coverage"],
                    traces_validated_against_impl=st["events"], evaluations=n, distinct_nontrivial=nd,
                    rule="one trace = one real calendar object (Cal / UnionCal / NamedCal / CalType) with its query battery; a query is counted once per (calendar, arguments); generated family = every holiday subset x settlement subset x mask of MC_Calendar's Init, random family = seeded calendars 1972-2198 incl. built-in names",
@@ -213,13 +219,15 @@ def run(pid, tier):
             for v in r["violations"]:
                 V.add("model/" + v["name"], "model invariant %s violated: %s" % (v["name"], v["state"]), {"engine": "model", "state": v["state"]})
         months = os.path.join(d, "months.ndjson")
-        run_harness(["cal", "months", "--mode", tier, "--seed", seed, "--out", months])
+        traces = []
+        if vlib.record(V, ["cal", "months", "--mode", tier, "--seed", seed, "--out", months]):
+            traces.append(months)
         rnd = os.path.join(d, "rnd.ndjson")
-        run_harness(["cal", "record", "--seed", seed, "--n", 400 if quick else 4000, "--out", rnd])
-        traces = [months, rnd]
+        if vlib.record(V, ["cal", "record", "--seed", seed, "--n", 400 if quick else 4000, "--out", rnd]):
+            traces.append(rnd)
         st = validate(pid, traces, tag, V, shards=12)
         n, nd, samples = count_owned(traces, pid)
-        bind = binding_demo(pid, months if False else rnd, d, tag)
+        bind = binding_demo(pid, rnd, d, tag) if rnd in traces else {}
         cov = dict(states=sum(r.get("distinct", 0) for r in mrs), transitions=sum(r.get("generated", 0) for r in mrs),
                    traces_validated_against_impl=st["events"], evaluations=n, distinct_nontrivial=nd,
                    rule="model: one state per (year, start month, start day, offset), invariant over 35 roll kinds; traces: add_months(Act) on the all-days calendar for covering (month, offset, roll) classes, get_roll / get_imm / get_eom / is_imm / is_eom for every month and is_leap_year for every year 1970-2200, add_months with other modifiers on random calendars",
